@@ -1,11 +1,11 @@
 #!/bin/bash
 # Runs every configured check at several seeds on the unchanged tree and reports anything that is not a clean exit 0.
-# usage: ./soak.sh <tier> <seed>... ; evidence goes to a scratch dir so that committed evidence is untouched.
+# usage: [VERIF_SOAK_IDS="C15 C17"] ./soak.sh <tier> <seed>... ; evidence goes to a scratch dir so that committed evidence is untouched.
 tier=${1:-quick}; shift
 seeds=${@:-1 2 3}
 out=$(mktemp -d /tmp/verif-soak-XXXXXX)
 bad=0
-for id in $(./check --list | awk '{print $1}'); do
+for id in ${VERIF_SOAK_IDS:-$(./check --list | awk '{print $1}')}; do
   for s in $seeds; do
     log=$out/$id-$s.log
     VERIF_SEED=$s VERIF_EVIDENCE_DIR=$out/ev VERIF_REPLAY_DIR=$out/replays ./check $id $tier > $log 2>&1; rc=$?
